@@ -224,7 +224,7 @@ Proof.
     assert (E1 : (s * 1000000 + n / 1000) / 1000000 = s) by (Z.div_mod_to_equations; lia).
     assert (E2 : (s * 1000000 + n / 1000) mod 1000000 * 1000 = n) by (Z.div_mod_to_equations; lia).
     rewrite E1, E2, Hr. reflexivity.
-  - destruct (in_i64 _); [|discriminate]. injection Hf as <-.
+  - destruct (in_i64 _); injection Hf as <-; [|discriminate Hx].
     assert (E1 : (s * 1000000000 + n) / 1000000000 = s) by (Z.div_mod_to_equations; lia).
     assert (E2 : (s * 1000000000 + n) mod 1000000000 = n) by (Z.div_mod_to_equations; lia).
     rewrite E1, E2. reflexivity.
@@ -291,22 +291,25 @@ Proof.
   - rewrite Z.mul_1_r. reflexivity.
 Qed.
 
-(* From<chrono> of a total: floor to the unit *)
-Lemma from_cr_of_total u t y :
-  from_cr u (cr_of_total_ns t) = Ok y -> y = t / unit_ns u /\ in_i64 y = true \/ (u <> Nano /\ y = t / unit_ns u).
+(* From<chrono> of a total: floor to the unit; at ns resolution NaT when the total is not an i64 *)
+Lemma from_cr_total u c : exists x, from_cr u c = Ok x.
+Proof. destruct u; eexists; reflexivity. Qed.
+
+Lemma from_cr_nano_value c :
+  from_cr Nano c = Ok (if in_i64 (cr_total_ns c) then cr_total_ns c else NaT).
+Proof. reflexivity. Qed.
+
+Lemma from_cr_of_total_val u t y :
+  from_cr u (cr_of_total_ns t) = Ok y -> y <> NaT -> y = t / unit_ns u.
 Proof.
   unfold from_cr, cr_of_total_ns. cbn [cr_secs cr_nanos].
   destruct u; cbn [unit_ns].
-  - intros [= <-]. right. split; [discriminate|reflexivity].
-  - intros [= <-]. right. split; [discriminate|]. Z.div_mod_to_equations; lia.
-  - intros [= <-]. right. split; [discriminate|]. Z.div_mod_to_equations; lia.
-  - destruct (in_i64 _) eqn:E; [|discriminate]. intros [= <-]. left.
-    replace (t / 1000000000 * 1000000000 + t mod 1000000000) with t in * by (Z.div_mod_to_equations; lia).
-    rewrite Z.div_1_r. auto.
+  - intros [= <-] _. reflexivity.
+  - intros [= <-] _. Z.div_mod_to_equations; lia.
+  - intros [= <-] _. Z.div_mod_to_equations; lia.
+  - replace (t / 1000000000 * 1000000000 + t mod 1000000000) with t by (Z.div_mod_to_equations; lia).
+    rewrite Z.div_1_r. destruct (in_i64 t); intros [= <-] Hy; [reflexivity|contradiction].
 Qed.
-
-Lemma from_cr_of_total_val u t y : from_cr u (cr_of_total_ns t) = Ok y -> y = t / unit_ns u.
-Proof. intros H. apply from_cr_of_total in H. tauto. Qed.
 
 Lemma cr_day_of_total t : cr_day (cr_of_total_ns t) = t / 1000000000 / SECS_PER_DAY.
 Proof. reflexivity. Qed.
@@ -365,14 +368,14 @@ Qed.
 Lemma dt_shift_exact (sgn : Z) u x ns y :
   (sgn = 1 \/ sgn = -1) ->
   ns mod unit_ns u = 0 -> x <> NaT ->
-  forall c r, as_cr u x = Some c -> cr_add_ns c (sgn * ns) = Some r -> from_cr u r = Ok y ->
+  forall c r, as_cr u x = Some c -> cr_add_ns c (sgn * ns) = Some r -> from_cr u r = Ok y -> y <> NaT ->
   y = x + sgn * (ns / unit_ns u) /\ r = cr_of_total_ns (y * unit_ns u).
 Proof.
-  intros Hs Hd Hx c r Hc Hr Hy.
+  intros Hs Hd Hx c r Hc Hr Hy Hyn.
   apply as_cr_total in Hc. destruct Hc as [-> _].
   apply cr_add_ns_inv in Hr. destruct Hr as [-> _].
   rewrite cr_total_of_total in *.
-  apply from_cr_of_total_val in Hy.
+  apply from_cr_of_total_val in Hy; [|exact Hyn].
   pose proof (unit_ns_pos u) as HU.
   assert (Hns : ns = unit_ns u * (ns / unit_ns u)).
   { pose proof (Z.div_mod ns (unit_ns u) ltac:(lia)). lia. }
@@ -396,7 +399,7 @@ Proof.
       rewrite Z.mul_1_l. auto.
     - destruct (dt_sub_monthfree _ _ _ _ Hm H Hx) as (c & r & ? & ? & ?). exists c, r.
       replace (-1 * td_ns d) with (- td_ns d) by lia. auto. }
-  destruct (dt_shift_exact sgn u x (td_ns d) y Hs Hk Hx c r Hc Hr Hf) as [Ey Er].
+  destruct (dt_shift_exact sgn u x (td_ns d) y Hs Hk Hx c r Hc Hr Hf Hy) as [Ey Er].
   pose proof (as_cr_range _ _ _ Hx64 Hc) as Hrange_c.
   destruct (cr_add_ns_inv _ _ _ Hr) as [_ Hrange_r].
   (* as_cr u y = Some r *)
@@ -751,24 +754,25 @@ Proof.
 Qed.
 
 Lemma dt_trunc_monthfree u x d y :
-  x <> NaT -> td_months d = 0 -> 0 < td_ns d -> dt_trunc u x d = Ok y ->
+  x <> NaT -> td_months d = 0 -> 0 < td_ns d -> dt_trunc u x d = Ok y -> y <> NaT ->
   y = (td_ns d * (instant_ns u x / td_ns d)) / unit_ns u.
 Proof.
   intros Hx Hm Hd. unfold dt_trunc. rewrite (proj2 (is_nat_false x) Hx), Hm. cbn [Z.eqb negb].
   destruct (as_cr u x) as [c|] eqn:Ec; [|discriminate]. cbn [unwrap bind].
-  destruct (cr_duration_trunc c (td_ns d)) as [r|] eqn:Er; [|discriminate]. cbn [bind]. intros Hy.
+  destruct (cr_duration_trunc c (td_ns d)) as [r|] eqn:Er; [|discriminate]. cbn [bind]. intros Hy Hyn.
   destruct (as_cr_total _ _ _ Ec) as [-> _].
   apply cr_duration_trunc_value in Er; [|apply cr_of_total_wf|exact Hd]. subst r.
-  rewrite cr_total_of_total in Hy. apply from_cr_of_total_val in Hy. exact Hy.
+  rewrite cr_total_of_total in Hy. apply from_cr_of_total_val in Hy; assumption.
 Qed.
 
 (* when d is a whole number of units: the greatest multiple of d not after x, as instants *)
 Lemma dt_trunc_monthfree_multiple u x d y :
   x <> NaT -> td_months d = 0 -> 0 < td_ns d -> td_ns d mod unit_ns u = 0 -> dt_trunc u x d = Ok y ->
+  y <> NaT ->
   instant_ns u y = td_ns d * (instant_ns u x / td_ns d)
   /\ instant_ns u y <= instant_ns u x < instant_ns u y + td_ns d.
 Proof.
-  intros Hx Hm Hd Hk H. apply dt_trunc_monthfree in H; try assumption.
+  intros Hx Hm Hd Hk H Hyn. apply dt_trunc_monthfree in H; try assumption.
   pose proof (unit_ns_pos u) as HU.
   set (n := td_ns d) in *. set (T := instant_ns u x) in *.
   assert (Hn : n = unit_ns u * (n / unit_ns u)).
